@@ -361,6 +361,9 @@ impl Run {
     }
 
     fn order_key(o: &tsrun::Order) -> String {
+        if let JsValue::Number(n) = o.payload.value() {
+            return format!("{}", n);
+        }
         if let JsValue::Object(_) = o.payload.value() {
             if let Ok(k) = api::get_property(o.payload.value(), "k") {
                 return match k {
